@@ -126,6 +126,19 @@ pub fn run(_args: &[String]) -> i32 {
             }
         }
     }
+    // long counter accounts: the printed amount must stay separated from the account by two spaces
+    for l in 34..=48usize {
+        evaluated += 1;
+        let mut acct = String::from("Expenses:");
+        while acct.len() < l { acct.push(if acct.len() % 9 == 8 { ':' } else { 'x' }); }
+        if acct.ends_with(':') { acct.push('y'); }
+        let cfg2 = cfg.replace("account: Expenses:Coded", &format!("account: {}", acct)).replace("payee: \"(?P<code>[0-9]+) (?P<payee>.*)\"", "payee: \"Shop\"");
+        let csv = "Date,Text,Note,Amount,Balance,Charge\n2024-05-01,Shop,,-1234.56,987.5,\n2024-05-02,Shop,,-12345.6,1087.50,\n2024-05-03,Shop,,-5,1.5,\n";
+        if let Some((desc, why)) = one(tmp.path(), &format!("long{}", l), &cfg2, "gen.csv", csv.as_bytes(), Format::Csv) {
+            let key = format!("counter account of {} columns: {}", l, why.split("\nprinted:").next().unwrap_or(""));
+            if bad.len() < 12 { bad.push((desc, why)); keys.push(key); }
+        }
+    }
     for ((s, why), key) in bad.iter().zip(keys.iter()).take(12) {
         println!("{}", serde_json::json!({"input": s, "contradiction": why, "key": key}));
     }
